@@ -172,6 +172,13 @@ func natholeCmd(args []string) int {
 				if sid == "" {
 					continue
 				}
+				// reports may arrive at any moment: before the owner has answered (the owner knows the sid already) ...
+				early := krnd.Intn(4) == 0
+				if early {
+					ctl.HandleReport(&msg.NatHoleReport{Sid: sid, Success: true})
+					ctl.HandleReport(&msg.NatHoleReport{Sid: sid, Success: false})
+					stats["early_report"]++
+				}
 				cm := &msg.NatHoleClient{TransactionID: ctid, ProxyName: "xp", Sid: sid,
 					MappedAddrs: append([]string{}, ca.mapped...), AssistedAddrs: append([]string{}, ca.assisted...)}
 				ctl.HandleClient(cm, ct)
@@ -195,6 +202,14 @@ func natholeCmd(args []string) int {
 				if vr != nil && vr.Error == "" && krnd.Intn(3) == 0 {
 					ctl.HandleReport(&msg.NatHoleReport{Sid: vr.Sid, Success: true})
 					reported = true
+				}
+				// ... and for a session whose analysis failed (error answers): never a crash, never a score
+				if vr != nil && vr.Error != "" && vr.Sid != "" {
+					ctl.HandleReport(&msg.NatHoleReport{Sid: vr.Sid, Success: true})
+					stats["report_after_error"]++
+				}
+				if (vr == nil || vr.Error != "") && sid != "" {
+					ctl.HandleReport(&msg.NatHoleReport{Sid: sid, Success: true})
 				}
 				// duplicates / unknown sids must be harmless
 				if krnd.Intn(4) == 0 {
